@@ -63,7 +63,7 @@ _COV = re.compile(r"^<(\w+) line (\d+), col \d+ to line \d+, col \d+ of module (
 
 
 def run_tlc(module, cfg=None, env=None, workers=1, timeout=3600, simulate=None, depth=None,
-            coverage=False, extra=(), heap=None, cwd=None, deadlock=False):
+            coverage=False, extra=(), heap=None, cwd=None, deadlock=False, budget_ok=False):
     """Run TLC on spec/<module>.tla (paths relative to SPEC).  Returns a dict with stdout,
     printed JSON records (strings that TLC printed through PrintT(ToJson(..)))), state
     counts, coverage and the error class ('' = none)."""
@@ -115,7 +115,15 @@ def run_tlc(module, cfg=None, env=None, workers=1, timeout=3600, simulate=None, 
         m = _COV.match(s)
         if m:
             res["coverage"][m.group(1)] = res["coverage"].get(m.group(1), 0) + int(m.group(5))
-    if timed_out:
+    m2 = re.findall(r"Progress: (\d+) states checked, (\d+) traces generated", out)
+    if m2:
+        res["sim_states"], res["sim_traces"] = int(m2[-1][0]), int(m2[-1][1])
+    m3 = re.search(r"The number of states generated: (\d+)", out)
+    if m3:
+        res["sim_states"] = int(m3.group(1))
+    if timed_out and budget_ok and "is violated" not in out and "Error:" not in out:
+        res["error"] = ""            # simulation under a time budget: running out of time is the normal end
+    elif timed_out:
         res["error"] = "timeout"
     elif "Invariant" in out and "is violated" in out:
         res["error"] = "invariant-violated"
